@@ -153,10 +153,22 @@ Section DOK.
           end
       end.
 
+  (* n_slices = len([ind for ind in key_list if isinstance(ind, slice)])
+     while value_is_array and value.ndim > n_slices > 0 and value.shape[0] == 1: value = value[0]
+     (value_is_array: every non-0-d value of this model is an ndarray — the harness never passes
+     nested Python lists, for which NumPy itself refuses a deeper nesting than the target) *)
+  Fixpoint drop_lead (vs : list Z) (v : arr V) (nsl : Z) : arr V :=
+    match vs with
+    | d :: vs' =>
+      if (nsl <? ndim v) && (0 <? nsl) && (d =? 1) then drop_lead vs' (sub v 0) nsl else v
+    | [] => v
+    end.
+  Definition drop_leading (v : arr V) (nsl : Z) : arr V := drop_lead (a_shape v) v nsl.
+
   Definition setitem_basic (sh : shape) (fill : V) (st : state) (es : list kentry) (v : arr V)
     : res state :=
     ents <- normalize_key es sh ;;
-    setitem_go fill ents [] v st.
+    setitem_go fill ents [] (drop_leading v (nslices ents)) st.
 
   (* __setitem__ on a general basic index (Ellipsis, None, ints, slices): the WHOLE
      normalize_index of Model/CooIndex.v (replace_ellipsis, padding, the too-many test, none_shape,
@@ -179,46 +191,64 @@ Section DOK.
   Definition setitem_index (sh : shape) (fill : V) (st : state) (ix : index) (v : arr V)
     : res state :=
     nix <- CooIndex.normalize_index ix sh ;;
-    setitem_go fill (ents_of_nix nix sh) [] v st.
+    let ents := ents_of_nix nix sh in
+    setitem_go fill ents [] (drop_leading v (nslices ents)) st.
 
-  (* ------------------------------------------------------------ _fancy_setitem *)
-  (* reached from __setitem__ when the key is a tuple of iterables (for a 1-d array also when
-     it is one iterable of integers, e.g. a list or the tuple (i,)).  The index values are
-     used as dictionary keys AS GIVEN: no bounds check, no wrapping of negative values. *)
-  Definition fancy_setitem (sh : shape) (fill : V) (st : state) (ls : list (list Z)) (v : arr V)
-    : res state :=
-    if negb (Nat.eqb (length ls) (length sh)) then Raise NotImplementedError
-    else match ls with
-    | [] => Raise NotImplementedError
-    | l0 :: _ =>
-      if negb (forallb (fun l => Nat.eqb (length l) (length l0)) ls) then Raise IndexError
-      else if Nat.eqb (length l0) 0 then Raise IndexError    (* np.asanyarray([]) is float64 *)
-      else
-        let n := length l0 in
-        vals <- match a_shape v with
-                | [] => Ok (repeat (a_get v []) n)                (* np.full(idxs[0].size, values) *)
-                | [m] => if m =? Z.of_nat n then Ok (map (fun j => a_get v [j]) (zrange m))
-                         else Raise ValueError                    (* "Shape mismatch ..." *)
-                | _ => Raise ValueError                           (* values.ndim > 1 *)
-                end ;;
-        Ok (fold_left (fun s kx => store fill (fst kx) (snd kx) s)
-                      (combine (transpose n ls) vals) st)
+  (* ------------------------------------------------------------ _fancy_key, _fancy_setitem *)
+  (* _fancy_key, one index sequence facing an axis of extent d:
+       check_index(k, dim)                       (the GENERATED g_check_index: IndexError for an
+                                                  out-of-range entry or a mask of the wrong length)
+       sanitize_index(k).astype(np.intp)         (a mask becomes its True positions)
+       posify_index(dim, ...)                    (the GENERATED g_posify_index: negatives wrap) *)
+  Definition fancy_key1 (p : pyv) (d : Z) : res (list Z) :=
+    _ <- g_check_index p (VInt d) ;;
+    q <- CooIndex.sanitize p ;;
+    r <- g_posify_index (VInt d) q ;;
+    match r with VArr l => Ok l | _ => Raise TypeError end.
+
+  Fixpoint fancy_keys (ps : list pyv) (sh : shape) : res (list (list Z)) :=
+    match ps, sh with
+    | [], [] => Ok []
+    | p :: ps', d :: sh' => l <- fancy_key1 p d ;; r <- fancy_keys ps' sh' ;; Ok (l :: r)
+    | _, _ => Raise NotImplementedError     (* "Index sequences for all N array dimensions needed!" *)
     end.
 
-  (* a boolean mask never reaches a store: a list of bools is taken for a list of integers
-     and rejected by _fancy_setitem's dtype test, an ndarray of bools is turned into an integer
-     array by normalize_index and rejected by _setitem — IndexError either way *)
-  (* the empty tuple (): `isinstance(key, tuple) and all(isinstance(k, Iterable) for k in key)` is
-     vacuously true, so it is taken for a tuple of index sequences of the wrong arity
-     (NotImplementedError); on a 1-d array it is first wrapped into ((),) and then rejected by
-     _fancy_setitem's dtype test (IndexError) *)
+  (* reached from __setitem__ when the key is a tuple of iterables; for a 1-d array also when it
+     is one iterable (not a tuple) of ints / NumPy ints / NumPy bools, e.g. a list or a mask *)
+  Definition fancy_setitem (sh : shape) (fill : V) (st : state) (ps : list pyv) (v : arr V)
+    : res state :=
+    if negb (Nat.eqb (length ps) (length sh)) then Raise NotImplementedError
+    else
+      ls <- fancy_keys ps sh ;;
+      match ls with
+      | [] => Raise NotImplementedError
+      | l0 :: _ =>
+        if negb (forallb (fun l => Nat.eqb (length l) (length l0)) ls) then Raise IndexError
+        else
+          let n := length l0 in
+          vals <- match a_shape v with
+                  | [] => Ok (repeat (a_get v []) n)               (* np.full(idxs[0].size, values) *)
+                  | [m] => if m =? 1 then Ok (repeat (a_get v [0]) n)   (* values.shape == (1,): the same *)
+                           else if m =? Z.of_nat n then Ok (map (fun j => a_get v [j]) (zrange m))
+                           else Raise ValueError                  (* "Shape mismatch ..." *)
+                  | _ => Raise ValueError                         (* values.ndim > 1 *)
+                  end ;;
+          Ok (fold_left (fun s kx => store fill (fst kx) (snd kx) s)
+                        (combine (transpose n ls) vals) st)
+      end.
+
+  (* the key forms.  () is replaced by (Ellipsis,).  A boolean mask of a 1-d array is one index
+     sequence (through the 1-d shortcut, or as a 1-tuple); a single n-d boolean array is not a
+     tuple of iterables: normalize_index turns it into an integer array and _setitem rejects it *)
   Definition setitem (sh : shape) (fill : V) (st : state) (k : key) (v : arr V) : res state :=
     match k with
-    | KBasic [] => match sh with [_] => Raise IndexError | _ => Raise NotImplementedError end
-    | KBasic es => setitem_basic sh fill st es v
-    | KFancy ls => fancy_setitem sh fill st ls v
-    | KMask _ => Raise IndexError
-    | KIndex [] => match sh with [_] => Raise IndexError | _ => Raise NotImplementedError end
+    | KBasic es => setitem_basic sh fill st es v          (* [] is padded with full slices, like (...,) *)
+    | KFancy ls => fancy_setitem sh fill st (map VArr ls) v
+    | KMask m => match sh with
+                 | [_] => fancy_setitem sh fill st [VBArr m] v
+                 | _ => Raise IndexError
+                 end
+    | KIndex [] => setitem_index sh fill st [IEllipsis] v
     | KIndex ix => setitem_index sh fill st ix v
     end.
 
@@ -268,30 +298,29 @@ Section DOK.
     axs <- axes_of ents ;;
     Ok (selshape axs, map (abs fill st) (gather_idx axs)).
 
-  (* _fancy_getitem: new_data[i] = data[k] for the rows k present in the dict (again no
-     wrapping and no bounds check), result of shape (len(key[0]),) *)
-  Definition fancy_getitem (sh : shape) (fill : V) (st : state) (ls : list (list Z))
+  (* __getitem__ with a non-empty key made of iterables only: _fancy_key, then _fancy_getitem:
+     new_data[i] = data[k] for the rows k present in the dict, result of shape (len(key[0]),) *)
+  Definition fancy_getitem (sh : shape) (fill : V) (st : state) (ps : list pyv)
     : res (list Z * list V) :=
-    if negb (Nat.eqb (length ls) (length sh)) then Raise NotImplementedError
-    else match ls with
-    | [] => Raise NotImplementedError
-    | l0 :: _ =>
-      if negb (forallb (fun l => Nat.eqb (length l) (length l0)) ls) then Raise IndexError
-      else Ok ([Z.of_nat (length l0)], map (abs fill st) (transpose (length l0) ls))
-    end.
+    if negb (Nat.eqb (length ps) (length sh)) then Raise NotImplementedError
+    else
+      ls <- fancy_keys ps sh ;;
+      match ls with
+      | [] => Raise NotImplementedError
+      | l0 :: _ =>
+        if negb (forallb (fun l => Nat.eqb (length l) (length l0)) ls) then Raise IndexError
+        else Ok ([Z.of_nat (length l0)], map (abs fill st) (transpose (length l0) ls))
+      end.
 
   Definition getitem (sh : shape) (fill : V) (st : state) (k : key) : res (list Z * list V) :=
     match k with
-    | KBasic [] => Raise NotImplementedError     (* () is a tuple of zero index sequences *)
-    | KBasic es => getitem_basic sh fill st es
-    | KFancy ls => fancy_getitem sh fill st ls
+    | KBasic es => getitem_basic sh fill st es            (* the empty key goes to COO: the whole array *)
+    | KFancy ls => fancy_getitem sh fill st (map VArr ls)
     | KMask m =>
-      (* a 1-d mask is a tuple of one iterable: _fancy_getitem with True/False hashing as 1/0 *)
       match sh with
-      | [_] => fancy_getitem sh fill st [map (fun b : bool => if b then 1 else 0) m]
-      | _ => Raise NotImplementedError
+      | [_] => fancy_getitem sh fill st [VBArr m]
+      | _ => Raise NotImplementedError      (* (mask,) is ONE index sequence for an n-d array *)
       end
-    | KIndex [] => Raise NotImplementedError
     | KIndex ix => getitem_index sh fill st ix
     end.
 
@@ -308,67 +337,45 @@ Section DOK.
     mkCOO sh (map fst st) (map snd st) fill.
 
   (* ------------------------------------------------------------ domain clauses *)
-  (* the key is not the empty tuple () *)
-  Definition nonempty_key (es : list kentry) : bool :=
-    match es with [] => false | _ => true end.
-
-  (* general basic indices: no None (NumPy accepts x[None, 0] = v; _setitem raises IndexError),
-     no index arrays (outside the property's key grammar), no zero step *)
-  Definition index_nonempty (ix : index) : bool := match ix with [] => false | _ => true end.
+  (* general basic indices: no None (NumPy accepts x[None, 0] = v; _setitem raises IndexError; the
+     property's keys are newaxis-free), no index arrays (outside the property's key grammar), no
+     zero step (NumPy rejects it) *)
   Definition index_no_newaxis (ix : index) : bool := forallb (fun e => negb (is_new e)) ix.
   Definition index_no_arrays (ix : index) : bool := forallb (fun e => negb (is_iarr e)) ix.
   Definition index_no_zero_step (ix : index) : bool :=
     forallb (fun e => match e with ISlice _ _ (Some 0) => false | _ => true end) ix.
-  Definition index_value_ndim_clause (sh : shape) (ix : index) (v : arr V) : bool :=
+  (* a 0-d VIEW as target (every axis indexed by an integer, plus an Ellipsis: x[..., 0] of a 1-d
+     x) takes a 0-d value only: NumPy broadcasts a one-element array into it, _setitem raises *)
+  Definition view0d_clause (sh : shape) (ix : index) (v : arr V) : bool :=
     match np_index_axes sh ix with
-    | Some axs => (length (a_shape v) <=? length (selshape axs))%nat
+    | Some axs => match selshape axs, a_shape v with [], _ :: _ => false | _, _ => true end
     | None => true
     end.
 
-  (* the value has no more axes than the key has slices (NumPy also accepts surplus leading
-     axes of extent 1; _setitem raises ValueError) *)
-  Definition value_ndim_clause (sh : shape) (es : list kentry) (v : arr V) : bool :=
-    match np_axes (np_pad es sh) sh with
-    | Some axs => (length (a_shape v) <=? length (selshape axs))%nat
-    | None => true
-    end.
+  (* integer-list keys: the value is 0-d or 1-d (NumPy also broadcasts values with leading axes
+     of extent 1; _fancy_setitem raises ValueError for ndim > 1 — pinned by the test suite) *)
+  Definition fancy_value_clause (v : arr V) : bool := (length (a_shape v) <=? 1)%nat.
 
-  (* integer-list keys: every index in [0, extent) (negative or too large values are stored as
-     they are), at least one row, value 0-d or of exactly the rows' shape *)
-  Fixpoint fancy_in_range (ls : list (list Z)) (sh : shape) : bool :=
-    match ls, sh with
-    | l :: ls', d :: sh' => forallb (fun i => (0 <=? i) && (i <? d)) l && fancy_in_range ls' sh'
-    | _, _ => true
-    end.
-  Definition fancy_nonempty (ls : list (list Z)) : bool :=
-    match ls with l0 :: _ => negb (Nat.eqb (length l0) 0) | [] => true end.
-  Definition fancy_value_clause (ls : list (list Z)) (v : arr V) : bool :=
-    match ls, a_shape v with
-    | _, [] => true
-    | l0 :: _, [m] => m =? Z.of_nat (length l0)
-    | _, _ => false
-    end.
-
-  (* the domain of one assignment: NumPy accepts it, and no named defect clause fails *)
+  (* the domain of one assignment: NumPy accepts it, and no named clause fails *)
   Definition op_valid (sh : shape) (op : key * arr V) : bool :=
     match np_setitem sh (fun _ => a_get (snd op) []) (fst op) (snd op) with Some _ => true | None => false end.
 
   Definition op_dom (sh : shape) (op : key * arr V) : bool :=
     op_valid sh op &&
     match fst op with
-    | KBasic es => nonempty_key es && value_ndim_clause sh es (snd op)
-    | KFancy ls => fancy_in_range ls sh && fancy_nonempty ls && fancy_value_clause ls (snd op)
-    | KMask _ => false
-    | KIndex ix => index_nonempty ix && index_no_newaxis ix && index_no_arrays ix
-                   && index_no_zero_step ix && index_value_ndim_clause sh ix (snd op)
+    | KBasic _ => true
+    | KFancy _ => fancy_value_clause (snd op)
+    | KMask _ => match sh with [_] => fancy_value_clause (snd op) | _ => false end
+    | KIndex ix => index_no_newaxis ix && index_no_arrays ix && index_no_zero_step ix
+                   && view0d_clause sh ix (snd op)
     end.
 
   Definition read_dom (sh : shape) (k : key) : bool :=
     match k with
-    | KBasic es => nonempty_key es
-    | KFancy ls => fancy_in_range ls sh
-    | KMask _ => false
-    | KIndex ix => index_nonempty ix && index_no_arrays ix && index_no_zero_step ix
+    | KBasic _ => true
+    | KFancy _ => true
+    | KMask _ => match sh with [_] => true | _ => false end
+    | KIndex ix => index_no_arrays ix && index_no_zero_step ix
     end.
 End DOK.
 
@@ -386,7 +393,9 @@ Arguments setitem_go {V}.
 Arguments setitem_basic {V}.
 Arguments setitem_index {V}.
 Arguments getitem_index {V}.
-Arguments index_value_ndim_clause {V}.
+Arguments view0d_clause {V}.
+Arguments drop_lead {V}.
+Arguments drop_leading {V}.
 Arguments fancy_setitem {V}.
 Arguments setitem {V}.
 Arguments step {V}.
@@ -398,7 +407,6 @@ Arguments dense_upd {V}.
 Arguments todense_fn {V}.
 Arguments todense {V}.
 Arguments to_coo {V}.
-Arguments value_ndim_clause {V}.
 Arguments fancy_value_clause {V}.
 Arguments op_valid {V}.
 Arguments op_dom {V}.
